@@ -451,8 +451,11 @@ class Monitor:
         return (t1 - t0) - covered
 
     def signature(self):
+        """Distinct observed history: the total order of harness-visible events (who, what, when)."""
+        hist = tuple((round(ev[0], 6), ev[1], ev[2], ev[3] if ev[2] != 'proxy' else ev[4]) for ev in self.x.trace
+                     if ev[2] != 'own_timeout_scope')
         cs = tuple(sorted((cid, c['out'][0] if c['out'] else None, c['t1']) for cid, c in self.callers.items()))
-        return (cs, self.x.aborted, len(self.key_open_intervals.get(KEY, [])))
+        return (hist, cs, self.x.aborted)
 
 
 # ------------------------------------------------------------------------------ world families
